@@ -233,7 +233,15 @@ fn report_lost(ctx: &mut Ctx, sig_addr: &str, sig_peer: &str, lost: &(String, St
 
 /// `load_cache_data` returned `r` for a file whose raw content is `f`.
 pub fn check_load(ctx: &mut Ctx, cfg: &Cfg, f: &Snap, f_dirt: Option<&str>, r: &Snap) {
-    let fid = f.ids();
+    // nothing invented (file texts are compared in canonical form: "/tcp/0016" is "/tcp/16")
+    let fid: BTreeSet<(String, String)> = f
+        .ents
+        .iter()
+        .map(|e| {
+            let canon = e.addr.parse::<Multiaddr>().map(|m| m.to_string()).unwrap_or_else(|_| e.addr.clone());
+            (e.key.clone(), canon)
+        })
+        .collect();
     for id in r.ids() {
         if !fid.contains(&id) {
             ctx.fail("load:result_has_addr_not_in_file", format!("{id:?}; file: {}", f.brief()));
